@@ -53,17 +53,30 @@ def run_generator(w, rep, rule, label, thunk, where):
         # answer True first, False last: the state left behind (exported dictionaries the caller inspects) is the one of
         # the ordinary run
         w.it.branch_oracle = oracle_for(True)
+        cm.FS.clear()
         before = len(cm.CodeGeneratorVal.registry)
         ok_t, _ = guarded(w, rep, rule, label + " (library conditions answered True)", thunk) if True else (False, None)
         gens_t = cm.CodeGeneratorVal.registry[before:]
         met = list(asked)
+        def files_survive(ok_, gs):
+            # abstract file system: what one generator wrote must not be removed or overwritten before the call returns
+            paths = [g.path for g in gs if g.path is not None]
+            if ok_ and paths:
+                gone = [p_ for p_ in paths if p_ not in cm.FS]
+                twice = sorted({p_ for p_ in paths if paths.count(p_) > 1})
+                rep.check(rule, "%s: every generated file is still there when the call returns, each written once" % label, not gone and not twice,
+                          "%s" % ("; ".join((["removed again before returning: %s" % gone] if gone else []) + (["written by two generators: %s" % twice] if twice else []))), where=where,
+                          fact={"files": paths})
         if not met:
+            files_survive(ok_t, gens_t)
             return ok_t, gens_t           # no such branch on this path: a single run decides
         del asked[:]
         w.it.branch_oracle = oracle_for(False)
+        cm.FS.clear()
         before = len(cm.CodeGeneratorVal.registry)
         ok, _ = guarded(w, rep, rule, label, thunk)
         gens = cm.CodeGeneratorVal.registry[before:]
+        files_survive(ok, gens)
         if ok and ok_t:
             rep.check(rule, "%s: what is generated does not depend on the file system / environment (branch at line %s on %s)" % (label, met[0][0], met[0][1][:60]),
                       sig(gens) == sig(gens_t), "with the condition true the export path generates %s instead of %s: a stale file is kept although the equation set or the options changed"
